@@ -127,4 +127,5 @@ def classify_exception(exc):
     # strip volatile numbers from the message stem
     import re
     stem = re.sub(r"[-+]?\d+(\.\d+)?([eE][-+]?\d+)?", "#", stem)
-    return "crash", f"{tname}:{stem}@{fname}:{func}"
+    line = (fr.line or "").strip()[:70] if fr else ""
+    return "crash", f"{tname}:{stem}@{fname}:{func}:{line}"
